@@ -9,6 +9,13 @@ Reading:
                                                                 ->  y = solve_ff rhs, and Mat is emitted separately
   X.toarray() if hasattr(X, 'toarray') else np.asarray(X)       ->  X               (storage conversion)
 Local names are substituted, so renaming locals does not change the generated terms.
+
+gen_lindtype (T-dtype, class DtEmitter): the SAME statements read over dtype tags (Model/LinDtype.v):
+  np.zeros(shape, dtype=E) / np.zeros_like(Y[, dtype=E])          ->  the dtype the buffer is allocated with
+  np.result_type(a.dtype, ..., float)                             ->  rt (rt a ...) DFloat
+  buf[self.p, ...] = v                                            ->  a store of dtype(v) into buf (listed in program order)
+  M @ v, a + b, a - b -> rt;  A[rows][:, cols], toarray/asarray   ->  dtype unchanged;  inner LinSolve -> sol dM drhs
+An allocation whose dtype depends on a run-time test (IfExp) is refused (fail-closed).
 """
 import ast, os
 from py2coq import Unsupported, parse_file, find_class, find_func
